@@ -9,7 +9,8 @@
  (d) compare-xyz R R reports zero differences, gama-local-deformation of an epoch with itself
      reports zero shifts; (e) SetCovBand law (all --cov-band values)."""
 import json, os, re, subprocess
-import vlib, gl, sessions, session
+import math
+import vlib, gl, sessions, session, octave
 LEVEL = "exploration"
 LANGS = ["en", "ca", "cz", "du", "es", "fi", "fr", "hu", "ru", "ua", "zh"]
 
@@ -80,6 +81,246 @@ def compare_reader(ctx, tag, mine, theirs, text, html=False):
                     report("obs", "observation %s %s->%s %s: %r read back as %r" % (o["type"], o.get("from"), o.get("to"), k, o[k], q[k]))
 
 
+def significant(a, b, digits):
+    """a was printed with `digits` significant digits of b"""
+    if a == b:
+        return True
+    return abs(a - b) <= 0.6 * 10.0 ** (math.floor(math.log10(max(abs(a), abs(b)))) - digits + 1)
+
+
+def check_octave(ctx, tag, res, mtext, text):
+    """the .m script carries the same adjustment as the XML (res = independent reading of the XML)"""
+    def report(chk, msg):
+        ctx.violation("octave_%s|%s" % (chk, tag), msg, replay={"gkf": text})
+    try:
+        env = octave.parse(mtext)
+    except octave.OctaveError as ex:
+        cls = "apostrophe" if "apostrophe" in str(ex) else "syntax"
+        report(cls, "the Octave script cannot be read: %s" % ex)
+        return 0
+    for name, val in (("unknowns", res["unknowns"]), ("observations", res["equations"]), ("network_defect", res["defect"])):
+        if env.get(name) != val:
+            report("stats", "%s = %s, the XML says %s" % (name, env.get(name), val))
+    for name, key in (("m_0_apriori", "apriori"), ("m_0_aposteriori", "aposteriori"), ("sum_of_squares", "pvv")):
+        if name not in env or not significant(env[name], res[key], 6):
+            report("stats", "%s = %s, the XML says %r" % (name, env.get(name), res[key]))
+    for kind in ("adjusted", "constrained", "fixed"):
+        for j, suf in enumerate(("xyz", "xy", "z")):
+            if env.get("%s_%s" % (kind, suf)) != res["coord_summary"][kind][j]:
+                report("stats", "%s_%s = %s, the XML says %s" % (kind, suf, env.get("%s_%s" % (kind, suf)), res["coord_summary"][kind][j]))
+    if env.get("FixedPoints") != [p["id"] for p in res["fixed"]]:
+        report("ids", "FixedPoints %s, the XML has %s" % (env.get("FixedPoints"), [p["id"] for p in res["fixed"]]))
+    if env.get("Points") != [p["id"] for p in res["adjusted"]]:
+        report("ids", "Points %s, the XML has %s" % (env.get("Points"), [p["id"] for p in res["adjusted"]]))
+        return 1
+    for p, row in zip(res["fixed"], env.get("FixedXYZ", [])):
+        for j, c in enumerate("xyz"):
+            if c in p and abs(row[2 + j] - p[c]) > 0.6e-6:
+                report("coords", "FixedXYZ(%s, %s) = %r, the XML says %r" % (p["id"], c, row[2 + j], p[c]))
+    for mat, sec in (("XYZ", "adjusted"), ("XYZ_0", "approximate")):
+        rows = env.get(mat, [])
+        byid = {p["id"]: p for p in res[sec]}
+        for p, row in zip(res["adjusted"], rows):
+            q = byid.get(p["id"], {})
+            for j, c in enumerate("xyz"):
+                v = q.get(c, q.get(c.upper()))
+                if v is not None and abs(row[j] - v) > 0.6e-6:
+                    report("coords", "%s(%s, %s) = %r, the XML says %r" % (mat, p["id"], c, row[j], v))
+    # C_xx = covariance block of the coordinates (the XML lists coordinates first, then orientations)
+    ncoord = sum(1 for p, c in gl.unknown_order(res) if c != "ori")
+    cxx = env.get("C_xx")
+    if res["cov_band"] == res["cov_dim"] - 1 and cxx is not None:
+        full = gl.cov_full(res)
+        if len(cxx) != ncoord:
+            report("cov", "C_xx has %d rows, %d adjusted coordinates" % (len(cxx), ncoord))
+        else:
+            for i in range(ncoord):
+                for j in range(ncoord):
+                    want = full[(min(i, j) + 1, max(i, j) + 1)]
+                    if not significant(cxx[i][j], want, 7) and abs(cxx[i][j] - want) > 1e-9:
+                        report("cov", "C_xx(%d,%d) = %r, the XML says %r" % (i + 1, j + 1, cxx[i][j], want))
+    # the script's own assertion: x listed by gama equals inv(A'PA) A'Pb (regular networks)
+    if res["defect"] == 0 and "A" in env and "C_ll" in env and "b" in env and "x_listed" in env and all(not p for p in [res["coord_summary"]["constrained"][k] for k in range(3)]):
+        m, n = int(env["observations"]), int(env["unknowns"])
+        A = octave.dense(env["A"], m, n)
+        C = octave.dense(env["C_ll"], m, m)
+        b = [r[0] for r in env["b"]]
+        # P = inv(C): solve C Y = [A b]
+        cols = []
+        for j in range(n + 1):
+            rhs = [A[i][j] for i in range(m)] if j < n else b
+            y = octave.solve(C, rhs)
+            if y is None:
+                report("solve", "C_ll of the script is singular")
+                return 1
+            cols.append(y)
+        N = [[sum(A[k][i] * cols[j][k] for k in range(m)) for j in range(n)] for i in range(n)]
+        rhs = [sum(A[k][i] * cols[n][k] for k in range(m)) for i in range(n)]
+        x = octave.solve(N, rhs)
+        if x is None:
+            report("solve", "normal equations of the script are singular although the defect is 0")
+        else:
+            COUNTS["octave_solved"] = COUNTS.get("octave_solved", 0) + 1
+            d = math.sqrt(sum(((row[0] - xi) * row[1] * 1000) ** 2 for row, xi in zip(env["x_listed"], x)))
+            if d > 1e-3:
+                report("solve", "the script's own assertion fails: xyzdiff_mm = %r > 1e-3" % d)
+    return 1
+
+
+COUNTS = {"text_coord_rows": 0, "text_obs_rows": 0, "compare_xyz_points": 0, "deformation_points": 0, "octave_solved": 0}
+TEXT_ROW = re.compile(r"^\s*(\d+)\s+(?:\S+\s+)?([xyzXYZ])\s+(?:\*\s+)?(-?\d+\.\d+)\s+(-?\d+\.\d+)\s+(-?\d+\.\d+)\s+(\d+\.\d+)\s+(\d+\.\d+)\s*$")
+
+
+def check_text(ctx, tag, res, text_out, gkf):
+    """English text listing against the XML: adjusted coordinates, their standard deviations, adjusted observations"""
+    def report(chk, msg):
+        ctx.violation("text_%s|%s" % (chk, tag), msg, replay={"gkf": gkf})
+    rows = [m.groups() for m in (TEXT_ROW.match(l) for l in text_out.split("\n")) if m]
+    order = [(p, c) for p, c in gl.unknown_order(res) if c != "ori"]
+    if len(rows) != len(order):
+        report("coords", "%d adjusted-coordinate rows in the text, %d adjusted coordinates in the XML" % (len(rows), len(order)))
+        return
+    byid = {p["id"]: p for p in res["adjusted"]}
+    full = gl.cov_full(res)
+    COUNTS["text_coord_rows"] += len(rows)
+    for k, ((pid, c), row) in enumerate(zip(order, rows), 1):
+        v = byid[pid][c]
+        if row[1] != c or abs(float(row[4]) - v) > 0.6e-5:
+            report("coords", "row %s %s: adjusted %s in the text, %r (%s %s) in the XML" % (row[0], row[1], row[4], v, pid, c))
+        sd = math.sqrt(max(full[(k, k)], 0.0))
+        if abs(float(row[5]) - sd) > 0.06 + 1e-4 * sd:
+            report("stdev", "row %s %s: std.dev %s in the text, sqrt(cov) = %.4f in the XML" % (row[0], row[1], row[5], sd))
+    # adjusted observations: the section lists index ... observed adjusted std.dev conf.i.
+    lines = text_out.split("\n")
+    try:
+        a = next(i for i, l in enumerate(lines) if l.startswith("Adjusted observations"))
+        b = next(i for i, l in enumerate(lines) if l.startswith("Residuals and analysis of observations"))
+    except StopIteration:
+        report("obs", "sections 'Adjusted observations' / 'Residuals and analysis of observations' not found")
+        return
+    obsrows = []
+    for l in lines[a:b]:
+        m = re.match(r"^\s*(\d+)\s+.*?(-?\d+\.\d+)\s+(-?\d+\.\d+)\s+(\d+\.\d+)\s+(\d+\.\d+)\s*$", l)
+        if m:
+            obsrows.append(m.groups())
+    if len(obsrows) != len(res["obs"]):
+        report("obs", "%d adjusted-observation rows in the text, %d observations in the XML" % (len(obsrows), len(res["obs"])))
+        return
+    COUNTS["text_obs_rows"] += len(obsrows)
+    for row, o in zip(obsrows, res["obs"]):
+        dec = len(row[2].split(".")[1])
+        if abs(float(row[1]) - o["obs"]) > 0.6 * 10 ** -dec or abs(float(row[2]) - o["adj"]) > 0.6 * 10 ** -dec:
+            report("obs", "observation %s: observed/adjusted %s / %s in the text, %r / %r in the XML" % (row[0], row[1], row[2], o["obs"], o["adj"]))
+        if abs(float(row[3]) - o["stdev"]) > 0.06 + 1e-4 * o["stdev"]:
+            report("obs_stdev", "observation %s: std.dev %s in the text, %r in the XML" % (row[0], row[3], o["stdev"]))
+
+
+def check_tools(ctx, q, nets):
+    """compare-xyz and gama-local-deformation on pairs (epoch, the same network translated)"""
+    cx = vlib.binpath("plain", "compare-xyz")
+    df = vlib.binpath("plain", "gama-local-deformation")
+    wd = os.path.join(ctx.outdir, "tools")
+    os.makedirs(wd, exist_ok=True)
+    jobs, meta = [], []
+    shifts = [(3.0, -2.0, 1.0), (0.0, 0.0, 0.0), (-0.25, 0.5, -0.125)]
+    for ni, net in enumerate(nets[: 30 if q else 200]):
+        sv = sessions.base_survey(net)
+        sh = shifts[ni % 3]
+        sv2 = session.apply_edit(sv, {"k": "Translate", "de": sh[0], "dn": sh[1], "du": sh[2]})
+        for which, s in ((0, sv), (1, sv2)):
+            jobs.append({"gkf": s.gkf(), "args": [], "want": ["xml"], "keep": True})
+            meta.append((ni, which))
+    runs = gl.run_many(ctx, jobs)
+    n = 0
+    for k in range(0, len(runs), 2):
+        r1, r2 = runs[k], runs[k + 1]
+        if r1.res is None or r2.res is None or r1.res["outcome"] != "adjusted" or r2.res["outcome"] != "adjusted":
+            continue
+        net = nets[meta[k][0]]
+        tag = net["t"]
+        f1, f2 = os.path.join(wd, "e1_%d.xml" % k), os.path.join(wd, "e2_%d.xml" % k)
+        open(f1, "wb").write(r1.files["xml"])
+        open(f2, "wb").write(r2.files["xml"])
+        a1 = {p["id"]: p for p in r1.res["adjusted"]}
+        a2 = {p["id"]: p for p in r2.res["adjusted"]}
+        get = lambda p, c: p.get(c, p.get(c.upper()))
+        for (fa, fb, pa, pb, what) in ((f1, f2, a1, a2, "pair"), (f1, f1, a1, a1, "self")):
+            n += 2
+            # ---- compare-xyz: points having x, y and z in both results
+            rc, out = vlib.sh([cx, fa, fb], timeout=60)
+            exp = {}
+            for pid in pa:
+                if pid in pb and all(get(pa[pid], c) is not None and get(pb[pid], c) is not None for c in "xyz"):
+                    exp[pid] = [get(pb[pid], c) - get(pa[pid], c) for c in "xyz"]
+            got = {}
+            ls = out.split("\n")
+            for i, l in enumerate(ls):
+                m = re.match(r"^(\S+)\s+3\s+(-?\d+\.\d+)\s+(-?\d+\.\d+)\s+(-?\d+\.\d+)\s*$", l)
+                if m and i + 1 < len(ls):
+                    d = re.findall(r"-?\d+\.\d+", ls[i + 1])
+                    if len(d) == 3:
+                        got[m.group(1)] = [float(v) for v in d]
+            mx = re.search(r"^max\s+(-?\d+\.\d+)\s+(-?\d+\.\d+)\s+(-?\d+\.\d+)", out, re.M)
+            COUNTS["compare_xyz_points"] += len(exp)
+            if set(got) != set(exp):
+                ctx.violation("compare_xyz|points|" + what, "compare-xyz lists points %s, common xyz points are %s" % (sorted(got), sorted(exp)), replay={"out": out})
+            else:
+                for pid in exp:
+                    if any(abs(g - e) > 1e-9 for g, e in zip(got[pid], exp[pid])):
+                        ctx.violation("compare_xyz|diff|" + what, "compare-xyz difference of %s is %s, the coordinates differ by %s" % (pid, got[pid], exp[pid]), replay={"out": out})
+                emax = [max([v[j] for v in exp.values()] + [0.0], key=abs) for j in range(3)]
+                if not mx or any(abs(float(mx.group(j + 1)) - emax[j]) > 1e-9 for j in range(3)):
+                    ctx.violation("compare_xyz|max|" + what, "compare-xyz max row %s, expected %s" % (mx.groups() if mx else None, emax), replay={"out": out})
+                big = max([abs(v) for v in emax] + [0.0])
+                if (rc != 0) != (big > 1e-5) or ("Failed" in out) != (big > 1e-5):
+                    ctx.violation("compare_xyz|verdict|" + what, "compare-xyz exits %s for a maximal difference of %r (tolerance 1e-5)" % (rc, big), replay={"out": out})
+            # ---- deformation
+            rc, out = vlib.sh([df, fa, fb], timeout=60)
+            if rc != 0:
+                ctx.violation("deformation|run|" + what, "gama-local-deformation exits %s: %s" % (rc, out[-300:]))
+                continue
+            rows = {}
+            for l in out.split("\n"):
+                m = re.match(r"^(\S+)\s+(\d+) (\d+) (\d+)\s+(-?\d+\.\d+)\s+(-?\d+\.\d+)\s+(-?\d+\.\d+)\s+(-?\d+\.\d+)\s+(-?\d+\.\d+)\s+(-?\d+\.\d+)\s*$", l)
+                if m:
+                    rows[m.group(1)] = ([int(m.group(j)) for j in (2, 3, 4)], [float(m.group(j)) for j in (5, 6, 7)], [float(m.group(j)) for j in (8, 9, 10)])
+            common = [pid for pid in pa if pid in pb]
+            if set(rows) != set(common):
+                ctx.violation("deformation|points|" + what, "deformation lists %s, common adjusted points are %s" % (sorted(rows), sorted(common)), replay={"out": out})
+                continue
+            full1, full2 = gl.cov_full(r1.res), gl.cov_full(r2.res if what == "pair" else r1.res)
+            idx1 = {pc: i + 1 for i, pc in enumerate(gl.unknown_order(r1.res))}
+            idx2 = {pc: i + 1 for i, pc in enumerate(gl.unknown_order(r2.res if what == "pair" else r1.res))}
+            cov_rows = []
+            seen = False
+            for l in out.split("\n"):
+                if l.startswith("# deformation covariance"):
+                    seen = True
+                    continue
+                if seen and re.match(r"^\s*-?\d+\.\d+", l):
+                    cov_rows.append([float(v) for v in l.split()])
+            COUNTS["deformation_points"] += len(common)
+            for pid in common:
+                ind, sh_, e2 = rows[pid]
+                for j, c in enumerate("xyz"):
+                    v1, v2 = get(pa[pid], c), get(pb[pid], c)
+                    if v1 is None or v2 is None:
+                        continue
+                    if abs(sh_[j] - (v2 - v1)) > 0.6e-5 or abs(e2[j] - v2) > 0.6e-5:
+                        ctx.violation("deformation|shift|" + what, "point %s %s: shift %r / epoch-2 value %r, the results give %r / %r" % (pid, c, sh_[j], e2[j], v2 - v1, v2), replay={"out": out})
+                    # variance of the shift = sum of the variances of the two epochs
+                    i = ind[j]
+                    cu = next((cc for cc in (c, c.upper()) if (pid, cc) in idx1), None)
+                    cu2 = next((cc for cc in (c, c.upper()) if (pid, cc) in idx2), None)
+                    if i and cu and cu2 and i <= len(cov_rows) and cov_rows[i - 1]:
+                        want = full1[(idx1[(pid, cu)],) * 2] + full2[(idx2[(pid, cu2)],) * 2]
+                        if not significant(cov_rows[i - 1][0], want, 7) and abs(cov_rows[i - 1][0] - want) > 1e-4:
+                            ctx.violation("deformation|cov|" + what, "point %s %s: variance of the shift %r, sum of the variances of the epochs %r" % (pid, c, cov_rows[i - 1][0], want), replay={"out": out})
+        os.remove(f1)
+        os.remove(f2)
+    return n
+
+
 def numeric_tokens(text):
     return re.findall(r"(?<![A-Za-z0-9_.])[-+]?\d+\.\d+(?:[eE][-+]?\d+)?(?![A-Za-z0-9_.])", text)
 
@@ -113,13 +354,14 @@ def run(ctx):
         sv.names[unk[0]["id"]] = sid
         sv.extra_desc = "net " + sid + " end"
         text = sv.gkf()
-        jobs.append({"gkf": text, "args": ["--cov-band", str([-1, 0, 1, 2][k % 4])], "want": ["xml", "html"], "keep": True})
+        jobs.append({"gkf": text, "args": ["--cov-band", str([-1, 0, 1, 2][k % 4])], "want": ["xml", "html", "octave"], "keep": True})
         meta.append((sid, sv, text))
     runs = gl.run_many(ctx, jobs)
     wd = os.path.join(ctx.outdir, "res")
     os.makedirs(wd, exist_ok=True)
     files = {"xml": [], "html": []}
     ok = []
+    noct = 0
     for k, ((sid, sv, text), run) in enumerate(zip(meta, runs)):
         tag = "id"
         if gl.classify(run) in ("crash", "sanitizer", "hang"):
@@ -140,6 +382,9 @@ def run(ctx):
             ctx.violation("id_lost|chars:%s" % "".join(sorted(set(c for c in sid if c in "<>&'\""))), "point id %r appears in the result as %s" % (sid, ids), replay={"gkf": text})
         if (run.res["description"] or "").strip() != sv.extra_desc:
             ctx.violation("description_changed", "description %r appears in the result as %r" % (sv.extra_desc, run.res["description"]), replay={"gkf": text})
+        if "octave" in run.files:
+            cls = "".join(sorted(set(c for c in sid if c in "<>&'\""))) or "plain"
+            noct += check_octave(ctx, "chars:" + cls, run.res, run.files["octave"].decode("utf-8", "replace"), text)
         for ext in ("xml", "html"):
             if ext in run.files:
                 p = os.path.join(wd, "r%05d.%s" % (k, ext))
@@ -158,7 +403,7 @@ def run(ctx):
                 compare_reader(ctx, ext, runs[k].res, rec, meta[k][2], html=(ext == "html"))
     # ---- (c) languages / encodings, (d) compare-xyz
     lang_jobs, lang_meta = [], []
-    sample_nets = nets[: 3 if q else 12]
+    sample_nets = nets[: 15 if q else 60]
     for ni, net in enumerate(sample_nets):
         sv = sessions.base_survey(net)
         for lg in LANGS:
@@ -170,6 +415,8 @@ def run(ctx):
         toks = numeric_tokens(run.text or "")
         if lg == "en":
             ref[ni] = toks
+            if run.res is not None and run.res.get("outcome") == "adjusted" and run.text:
+                check_text(ctx, sample_nets[ni]["t"], run.res, run.text, lang_jobs[0]["gkf"] if False else "")
     for (ni, lg), run in zip(lang_meta, lruns):
         toks = numeric_tokens(run.text or "")
         if toks != ref.get(ni) or not toks:
@@ -186,12 +433,13 @@ def run(ctx):
             pass
         if rc != 0:
             ctx.violation("compare_xyz|self", "compare-xyz R R exits %s: %s" % (rc, out[-300:]))
+    ntools = check_tools(ctx, q, nets)
     for ext in ("xml", "html"):
         for p, _ in files[ext]:
             os.remove(p)
     if strings:
         ctx.sample({"id_strings": strings[:8]})
     ctx.assume("independent reader: ElementTree (tools/gl.py); XML well-formedness judged by expat through ElementTree")
-    return {"evaluations": len(jobs) + len(lang_jobs) + ncmp, "distinct_nontrivial": len([s for s in strings if any(c in s for c in "<>&'\"é")]),
+    return {"evaluations": len(jobs) + len(lang_jobs) + ncmp + ntools + noct, "octave_scripts_read": noct, "tool_runs": ntools, "counts": dict(COUNTS), "distinct_nontrivial": len([s for s in strings if any(c in s for c in "<>&'\"é")]),
             "rule": "identifier strings = states of XmlResult.tla (alphabet a < > & ' \" e-acute blank, length <= 3, thinned by Keep); non-trivial = contains an XML special or non-ASCII character",
             "tlc_states": r.distinct + r0.distinct, "results_read_back": len(ok), "exhaustive": not q}
